@@ -62,9 +62,12 @@ def run_value_machine(out, sc, prop, tier, fields=None, extras=()):
         last = st.get("last", {})
         if last.get("act") in (None, "seed"):
             continue
-        prev = last["prev"]
-        five = [prev["scheme"], prev["netloc"], prev["path"], prev["query"], prev["fragment"]]
-        call = {"prog": [{"op": "split", "val": five}, last["args"]], "extras": list(extras)}
+        if last["act"] == "build":          # an initial state made by URL.build: the call itself is replayed
+            call = {"prog": [last["args"]], "extras": list(extras)}
+        else:
+            prev = last["prev"]
+            five = [prev["scheme"], prev["netloc"], prev["path"], prev["query"], prev["fragment"]]
+            call = {"prog": [{"op": "split", "val": five}, last["args"]], "extras": list(extras)}
         if fields:
             call["fields"] = fields
         calls.append(call)
